@@ -262,9 +262,14 @@ func rawScenario(r *vh.Run, kind kit.Kind, regime string, n int, round int) {
 }
 
 // sampleOnce: the evidence file keeps six samples; one per scenario family leaves room for every family.
-var sampled = map[string]bool{}
+var (
+	sampled   = map[string]bool{}
+	sampledMu sync.Mutex
+)
 
 func sampleOnce(family string) bool {
+	sampledMu.Lock()
+	defer sampledMu.Unlock()
 	if sampled[family] {
 		return false
 	}
@@ -554,6 +559,10 @@ func main() {
 	r := vh.NewRun("C01", "exploration")
 	rawN := r.Pick(48, 160)
 	rounds := r.Pick(1, 15)
+	if os.Getenv("C01_ONLY") == "mix" { // debugging aid: only the operation-mix histories
+		mixScenarios(r)
+		r.Finish("debug run: operation-mix histories only", nil)
+	}
 	for round := 0; round < rounds; round++ {
 		for _, kind := range kit.AllKinds {
 			for _, regime := range []string{"immediate", "delay", "barrier"} {
@@ -581,6 +590,7 @@ func main() {
 	}
 	kit.Events.Reset()
 	slowReader(r, 150, 100<<10)
+	mixScenarios(r)
 	pressureScenarios(r)
 
 	r.Finish("7 server configurations x {raw peer, library client} x completion regimes {immediate, random delay, barrier release}; "+
@@ -589,7 +599,16 @@ func main() {
 		"back-pressure episodes on all 7 configurations: the peer stops reading (legacy event stream with a small fixed receive buffer, stdio stdout pipe, Streamable POST response bodies) while more answers than the "+
 		"legacy server's 100-slot queue holds are in flight on one session, the in-flight calls taking every answer path (result, large result, isError, handler Go error, unknown tool, invalid / missing params, "+
 		"unknown method, middleware Go error, NaN / chan results, nil content, prompt and resource successes and failures, ping, lists); after the peer resumes every call must have exactly one answer with its own id "+
-		"(and its own content where the handler computes it from the arguments). A case is distinct by (scenario, configuration, regime, id class) and non-trivial when its answer was checked for id, nonce and digest.",
+		"(and its own content where the handler computes it from the arguments). "+
+		"Operation-mix histories on the three library clients (Streamable against all 5 Streamable configurations, legacy SSE, stdio with a real child process), several clients side by side: from the first request "+
+		"after Initialize on, 2-4 (thorough: up to 8) slow tools/call requests are started whose handler waits at a gate and stay pending while every other public operation is issued sequentially and in concurrent bursts "+
+		"(ListTools, ListPrompts, ListResources, GetPrompt ok / handler error, ReadResource ok / handler error, CallTool result / Go error / isError / a tool that asks the client for its roots so that a server-issued "+
+		"roots/list is answered meanwhile, roots list_changed notification); the first request after Initialize is, over the histories, each operation kind and a slow call; then the gates open. Every call must return its own answer "+
+		"(the nonce it sent and the digest of its payload, the server's complete tool / prompt / resource list, the prompt built from its own argument, the contents of the URI it asked for, its own error text), handlers run once per request. "+
+		"A case is distinct by (scenario, configuration, regime, id class) — mix: (configuration, operation, phase of the history, number of calls pending when issued), counted only in histories whose slow calls were all seen pending "+
+		"until the release — and non-trivial when its answer was checked for id, nonce and digest (mix: against what the call asked for).",
 		[]string{"ids above 2^53 are outside the statement", "interleavings are sampled, not enumerated", "a missing answer is judged after a 20 s wait on an otherwise idle loopback connection",
+			"operation-mix histories: a call is called unanswered only when its 40 s watchdog fired (slow calls: counted from the release of the gate, and only when the handler is recorded to have returned) AND a call issued afterwards on the same client was answered; a transport failure is judged the same way; without the later answer the case is inconclusive",
+			"operation-mix histories: the context given to Initialize is kept alive for the whole history (cancelling it is a client life-cycle matter)",
 			"back-pressure episodes: an answer is called missing only after the stream delivered nothing for 15 s AND two pings posted afterwards were answered on the same stream (Streamable: the POST's own response ended in order without it)"})
 }
